@@ -149,6 +149,32 @@ theorem dcol_bytes (L put : List Line) (ln col endLn endCol : Nat) (h : ValidSpa
   rw [paramsOffsetBytes_eq] at this
   exact this
 
+/-- **Placement of a freshly parsed fragment** (`_make_exprlike_fst`: parse at the origin, offset by `(ln, lines[ln].c2b(col))`,
+splice the lines): every span `(l1,c1)-(l2,c2)` of the fragment denotes, at the placed coordinates `(ln + l, col + c on the
+first line, c on the others)` of the new document, exactly the text it denoted in the fragment, so the next edit addressed
+to a new node or one of its children touches only that node's text. -/
+theorem placed_text (L put : List Line) (ln col endLn endCol : Nat) (h : ValidSpan L ln col endLn endCol)
+    (hp : put ≠ []) (l1 c1 l2 c2 : Nat) (hl1 : l1 < put.length) (hl2 : l2 < put.length)
+    (hc1 : c1 ≤ (lineAt put l1).length) (hc2 : c2 ≤ (lineAt put l2).length) :
+    getFlat (putSrc L put ln col endLn endCol) (placeLn ln l1) (placeCol col l1 c1) (placeLn ln l2) (placeCol col l2 c2)
+      = getFlat put l1 c1 l2 c2 :=
+  getFlat_placed L put ln col endLn endCol h hp l1 c1 l2 c2 hl1 hl2 hc1 hc2
+
+/-- **Placement in bytes**: the byte column of a fragment point on the first put line is its byte column in the fragment plus
+the BYTE length of the text kept before the put position (`lines[ln].c2b(col)`). -/
+theorem placed_bytes (L put : List Line) (ln col endLn endCol : Nat) (h : ValidSpan L ln col endLn endCol)
+    (hp : put ≠ []) (c : Nat) (hc : c ≤ (lineAt put 0).length) :
+    c2b (lineAt (putSrc L put ln col endLn endCol) (placeLn ln 0)) (placeCol col 0 c)
+      = placeColBytes L ln col 0 (c2b (lineAt put 0) c) :=
+  place_bytes L put ln col endLn endCol h hp c hc
+
+/-- Offsetting by the CHARACTER column instead is wrong as soon as multi-byte text precedes the put position on its line. -/
+theorem placed_chars_false :
+    ¬ (∀ (L : List Line) (ln col b : Nat), placeColBytes L ln col 0 b = col + b) := by
+  intro h
+  have := h ["g = \"é\"; t = f(a)".toList] 0 13 2
+  revert this; decide
+
 /-! ### non-vacuity (text layer) -/
 
 private def L0 : List Line := ["x = [1,  # one".toList, "     2,  # twö".toList, "     3]".toList, "y = 2  # tail".toList]
@@ -163,6 +189,9 @@ example : (putSrc L0 P0 1 5 2 6).map String.ofList
 example : le2 2 6 2 6 ∧ le2 2 6 3 13 ∧ 3 < L0.length := by decide
 example : le2 0 0 1 5 := by decide
 example : shiftLn P0 1 2 3 = 4 ∧ shiftCol P0 5 2 6 2 6 = 7 := by decide
+-- placement: the fragment `nf(p1,⏎   p2)` put over `[1, ...]`'s first element: its second line / child `p2`
+example : getFlat (putSrc L0 ["nf(p1,".toList, "       p2)".toList] 0 5 0 6) (placeLn 0 1) (placeCol 5 1 7) (placeLn 0 1) (placeCol 5 1 9)
+    = "p2".toList := by decide
 -- multi-byte: `ö` before the end column makes byte and character deltas differ
 example : c2b (lineAt L0 1) 14 = 15 := by decide
 
@@ -253,32 +282,20 @@ theorem trail_scan_partial (pat : Line → Option Bool) (lines : List Line) (sto
       cur ≤ b ∧ (b ≤ hi ∨ b = cur) ∧ (∀ i, cur ≤ i → i < b → reEmptyLineOrCont (lineAt lines i) = true)) :=
   ⟨scanDown_spec pat lines stop fuel cur cl, spaceDown_spec lines hi fuel cur⟩
 
-/-- `triviaParams_total` (every value accepted by `_check_opt_trivia` is mapped by `get_trivia_params` to values the
-trivia functions handle) is FALSE of the code: the empty string is accepted and mapped to `comments = ''`. -/
-theorem triviaParams_total_false :
-    ¬ (∀ t neg, checkOptTrivia t = true →
-        ∃ p, getTriviaParams t neg = some p ∧ legalLead p.leadC = true ∧ legalTrail p.trailC = true) := by
-  intro h
-  obtain ⟨p, hp, hl, _⟩ := h (.single (.str [])) false (by decide)
-  have : getTriviaParams (.single (.str [])) false
-      = some ⟨.str [], .bool false, false, .str "line".toList, .bool false, false⟩ := by decide
-  rw [this] at hp; cases hp
-  revert hl; decide
+/-- **triviaParams_total**: every value accepted by `_check_opt_trivia` (booleans, integers, the words
+`all|block|none|(line)` with an optional `+`/`-` and digits, the bare `+…`/`-…` shorthand; single or in a 0/1/2-tuple) is
+mapped by `get_trivia_params`, for either value of `neg`, to `comments` values that `leading_trivia` /
+`trailing_trivia` handle (`none|all|block|int`, trailing also `line`).  Holds since option strings must be non-empty
+(before that repair `''` was accepted and mapped to `comments = ''`). -/
+theorem triviaParams_total (t : TrivOpt) (neg : Bool) (h : checkOptTrivia t = true) :
+    ∃ p, getTriviaParams t neg = some p ∧ legalLead p.leadC = true ∧ legalTrail p.trailC = true :=
+  getTriviaParams_total t neg h
 
-/-- Partial totality: booleans, integers and the documented words (with the shorthand `+` / `-` and small numeric
-suffixes), single or in tuples, are mapped to legal parameters. -/
-theorem triviaParams_total_partial :
-    ∀ t ∈ ([.single (.bool true), .single (.bool false), .single (.int 3), .single (.int (-1)),
-        .single (.str "all".toList), .single (.str "block".toList), .single (.str "none".toList),
-        .single (.str "all+".toList), .single (.str "block+2".toList), .single (.str "none-".toList),
-        .single (.str "+".toList), .single (.str "-1".toList), .single (.str "all-12".toList),
-        .tuple [], .tuple [.str "line".toList], .tuple [.str "line+1".toList], .tuple [.bool false],
-        .tuple [.str "all".toList, .str "all".toList], .tuple [.str "none".toList, .str "block+".toList],
-        .tuple [.int 2, .int 9], .tuple [.bool true, .str "-".toList], .tuple [.str "+3".toList, .str "none-2".toList]]
-        : List TrivOpt), ∀ neg : Bool,
-      checkOptTrivia t = true ∧
-      ∃ p, getTriviaParams t neg = some p ∧ legalLead p.leadC = true ∧ legalTrail p.trailC = true := by
-  decide
+example : checkOptTrivia (.single (.str "all+3".toList)) = true ∧ checkOptTrivia (.tuple [.str "-".toList, .str "line+".toList]) = true
+    ∧ checkOptTrivia (.single (.str [])) = false ∧ checkOptTrivia (.tuple [.str []]) = false
+    ∧ checkOptTrivia (.single (.str "line".toList)) = false := by decide
+example : getTriviaParams (.single (.str "all+3".toList)) false
+    = some ⟨.str "all".toList, .int 3, false, .str "line".toList, .bool false, false⟩ := by decide
 
 /-! ### non-vacuity (trivia) -/
 
